@@ -173,7 +173,7 @@ type Explorer struct {
 	CurFile   *os.File // if set, the schedule about to run is written here (crash attribution)
 	Budget    int      // maximum number of executions (0 = unlimited)
 	MaxFound  int
-	Filter    func(v Violation) bool
+	Filter    func(v *Violation) bool
 	seenSig   map[string]int
 	ReplayMod int // every ReplayMod-th execution is run twice and digests compared
 }
@@ -235,7 +235,7 @@ func (e *Explorer) Explore(prefix []string, devs int) {
 		}
 	}
 	for _, v := range x.Viol {
-		if e.Filter != nil && !e.Filter(v) {
+		if e.Filter != nil && !e.Filter(&v) {
 			continue
 		}
 		sig := v.Prop + "|" + v.Kind
